@@ -7,6 +7,7 @@ import (
 	"fmt"
 	"sync"
 
+	"github.com/elementsproject/peerswap/lightning"
 	"github.com/elementsproject/peerswap/log"
 	"github.com/elementsproject/peerswap/premium"
 
@@ -991,9 +992,13 @@ func (s *SwapService) lockSwap(swapId, channelId string, fsm *SwapStateMachine) 
 	s.Lock()
 	defer s.Unlock()
 
-	// Check if we already have an active swap on the same channel
+	// Check if we already have an active swap on the same channel. The channel
+	// id may be written with 'x' or ':' separators, and the swap data of an
+	// entry is only filled in later (under the swap's own lock), so compare the
+	// normalized id recorded when the entry was locked in.
+	scid := lightning.Scid(channelId).ClnStyle()
 	for id, swap := range s.activeSwaps {
-		if swap.Data.GetScid() == channelId {
+		if swap.lockedScid == scid {
 			return ActiveSwapError{channelId: channelId, swapId: id}
 		}
 	}
@@ -1003,6 +1008,7 @@ func (s *SwapService) lockSwap(swapId, channelId string, fsm *SwapStateMachine) 
 	}
 
 	// Add active swap
+	fsm.lockedScid = scid
 	s.activeSwaps[swapId] = fsm
 	return nil
 }
